@@ -104,11 +104,14 @@ def obligations(tier):
     add(["ADD", "LOOP_2S", "FREE_FINALIZE"], kind=1)
     if tier != "quick":
         A = ["ADD", "ACTIVE", "DEL", "FINALIZE", "FREE_FINALIZE", "FREE", "LOOP", "LOOP_2S", "ONCE_NOW"]
-        for kind in (0, 1, 2):
-            for a in A:
+        for a in A:
+            for b in A:
+                for epi in (0, 1):
+                    add([a, b], kind=0, epi=epi)
+        for kind in (1, 2):
+            for a in ("ADD", "ACTIVE"):
                 for b in A:
-                    for epi in (0, 1):
-                        add([a, b], kind=kind, epi=epi)
+                    add([a, b], kind=kind, epi=0)
         for cbact in ("FREE_SELF", "FREE_FINALIZE_SELF", "FINALIZE_SELF", "DEL_SELF", "FREE_B", "REACTIVATE"):
             for kind in (0, 1):
                 for c in ("LOOP", "FREE", "FINALIZE", "DEL", "NOP"):
